@@ -140,6 +140,20 @@ func runOCI(rng *rand.Rand, i int) (res worker.Result) {
 			delete(model, t)
 			history = append(history, ociStep{"untag", t, -1})
 			ops += "u"
+		case r == 19: // GC keeps every tag; manifests without a tag go
+			if err := st.GC(ctx); err != nil {
+				res.Violate("harness:gc", err.Error(), nil)
+				return res
+			}
+			for k := range alive {
+				if alive[k] {
+					ok, err := st.Exists(ctx, mans[k])
+					alive[k] = err == nil && ok
+				}
+			}
+			history = append(history, ociStep{"gc", "", -1})
+			ops += "G"
+			res.Count("oci_gc_runs", 1)
 		case r < 19 && len(aliveIdx) > 1: // delete a manifest: its tags go with it
 			m := aliveIdx[rng.IntN(len(aliveIdx))]
 			if err := st.Delete(ctx, mans[m]); err != nil {
